@@ -27,6 +27,11 @@
      (excludes D10: C02_writeback_refuted), a mutation directly follows the Get that returned the object.
    C02_step_simulation — the same as a one-step simulation, for clients that are not lists of operations.
    C02_flush_order_keeps_names / _swapped_refuted — why Close flushes trees before dictionaries (abstract model).
+   C02_storage_reload_transparent / C02_storage_reload_get (builder tree-a, Proofs/C02StorageReload.v) — at the level of
+     the storage model over plain maps: replacing, at any points of a history, any subset of the stored trees by their
+     reloaded form t_reload (what an eviction followed by a reload does to a tree, by tree_reload_codec) changes no Put
+     result, no timeline, no metadata and no self value of any stack of any Get.  Its invariant `rel` (same segment
+     table, seq-equal valid tree under every key) and `rel_step` are ingredient (3) below, already proved.
    NOT proved: the composition inside the storage model.  The exact remaining gap to a storage-level C02_refines over
    Model/Storage.v (plain association lists; the only access points are tree_get / tree_store / tree_remove on st_trees
    and seg_lookup / seg_store / seg_remove on st_segs; the index is abstracted by sel_matches over st_segs, names live in
@@ -60,6 +65,7 @@ From Coq Require Import List NArith.
 From Pyro Require Import Model.Base Model.Varint Model.Tree Model.TreeCodec Model.DimCodec Model.Lfu Model.Cache Model.FlushOrder.
 From Pyro Require Import Model.Segment Model.SegCodec Proofs.SegStruct Proofs.SegCodecProofs Proofs.TreeCodecProofs.
 From Pyro Require Model.Dict Proofs.DictProofs.
+From Pyro Require Import Model.Timeline Model.Storage Proofs.C02StorageReload.
 From Pyro Require Import Proofs.CacheProofs Proofs.C02Lift Proofs.DimCodecProofs Proofs.FlushOrderProofs Proofs.TreeReloadProofs Proofs.C02Trees Proofs.C02Stores.
 Import ListNotations.
 
@@ -152,6 +158,20 @@ Theorem C02_trees_with_dict_transparent :
              tc_deserialize dl (fst (tc_serialize cap t d)) = Some (t_reload t).
 Proof. exact trees_with_dict_transparent. Qed.
 Print Assumptions C02_trees_with_dict_transparent.
+
+(* storage level, over Model/Storage.v: reloads of stored trees inserted anywhere are invisible up to self values *)
+Theorem C02_storage_reload_transparent : forall rt pops,
+  Forall ok_pop pops ->
+  Forall2 out_equiv (snd (p_run rt pops st_init)) (snd (st_run rt (strip pops) st_init)).
+Proof. exact storage_reload_transparent. Qed.
+Print Assumptions C02_storage_reload_transparent.
+
+Theorem C02_storage_reload_get : forall rt pops sel from until,
+  Forall ok_pop pops ->
+  out_equiv (OutGet (st_get sel from until (fst (p_run rt pops st_init))))
+            (OutGet (st_get sel from until (fst (st_run rt (strip pops) st_init)))).
+Proof. exact storage_reload_get. Qed.
+Print Assumptions C02_storage_reload_get.
 
 (* one step of the simulation, for clients that are not lists of operations (the storage model calls the cache
    operation by operation): the invariant Inv relates a cache state to a plain map and is preserved by every
